@@ -13,7 +13,7 @@ func init() {
 		technique: "who-may-call + CFG ordering (PreStart success ≺ running; PostStop ⇒◇ reset) + lockset (stopLocker held at every doStop) + call-graph confinement of PostStop to the actor's own turn",
 		explanation: "Decides: (1) Actor.PreStart is invoked only in PID.init, init only from newPID (before the PID is returned/published) and restartSubtree; the running flag is set only after PreStart succeeded; nothing is delivered to a new PID before init; (2) Actor.PostStop is invoked only in doStop; doStop is called only from Shutdown and tryPassivation, each time with stopLocker held; in Shutdown the call is dominated by the runningState test (at most once per incarnation) and the lock is released on every exit; (3) in doStop PostStop is always followed by clearing the running flag and PID.reset (which empties the behaviour stack), so no Receive starts after PostStop finished; children are freed before PostStop; (4) the system mailbox is consulted before the user mailbox on every loop iteration; (5) hook confinement: every synchronous call path that reaches PostStop starts on the actor's own turn (through runTurn); each entry point that reaches it off-turn is reported (these are the ways PostStop can overlap a Receive running on a worker).",
 		assumptions: []string{"overlap freedom on the stop paths listed as known findings (off-turn stops do not wait for an in-flight Receive)", "mutual exclusion provided by stopLocker is per PID instance (field-based lock identity)"},
-		minObl:     25,
+		minObl:     28,
 		run:        runC06,
 	})
 }
